@@ -37,8 +37,11 @@ func (r *Router) proxy(w http.ResponseWriter, req *http.Request) {
 	} else {
 		upstreamReq.Header.Set("X-Forwarded-For", req.RemoteAddr)
 	}
-	// call the upstream service
-	resp, err := r.proxyClient.Do(upstreamReq)
+	// call the upstream service; a redirect is the client's to follow, so
+	// relay it like any other response instead of following it here
+	relayClient := *r.proxyClient
+	relayClient.CheckRedirect = func(*http.Request, []*http.Request) error { return http.ErrUseLastResponse }
+	resp, err := relayClient.Do(upstreamReq)
 	if err != nil {
 		r.handlerReturnWithError(w, ErrUpstreamUnavailable, err)
 		return
